@@ -28,7 +28,7 @@ None == [kind |-> "none"]
 CallerGrace == 1000      \* SendActiveMessage gives up one second after the request's own time-out (milliseconds)
 Fresh == /\ rr = {} /\ x = InitX /\ nmsg = 0 /\ hdr = None /\ toReport = <<>> /\ toWriter = <<>> /\ cur = None /\ pend = "none"
          /\ cbQ = <<>> /\ wireQ = <<>> /\ pser = 0 /\ issued = <<>> /\ written = <<>> /\ outstanding = <<>>
-         /\ matched = <<>> /\ expectRet = <<>> /\ returned = {} /\ activeCb = {} /\ stopping = FALSE /\ diverged = FALSE
+         /\ matched = <<>> /\ expectRet = <<>> /\ returned = {} /\ activeCb = {} /\ stopping = -1 /\ diverged = FALSE
 Init == l = 1 /\ Fresh /\ bad = <<>> /\ filt = TRUE
 E == Trace[l]
 Flag(ok, what) == IF ok \/ diverged THEN bad ELSE Append(bad, [l |-> l, c |-> E.c, what |-> what])
@@ -60,7 +60,7 @@ AsM(o, n) == [n |-> n, id |-> o.id, ver |-> o.ver, phone |-> o.phone, digits |->
 Reset == /\ E.ev = "reset" /\ bad' = bad /\ filt' = (IF "filter" \in DOMAIN E THEN E.filter ELSE TRUE)
          /\ rr' = {} /\ x' = InitX /\ nmsg' = 0 /\ hdr' = None /\ toReport' = <<>> /\ toWriter' = <<>> /\ cur' = None /\ pend' = "none"
          /\ cbQ' = <<>> /\ wireQ' = <<>> /\ pser' = 0 /\ issued' = <<>> /\ written' = <<>> /\ outstanding' = <<>>
-         /\ matched' = <<>> /\ expectRet' = <<>> /\ returned' = {} /\ activeCb' = {} /\ stopping' = FALSE /\ diverged' = FALSE
+         /\ matched' = <<>> /\ expectRet' = <<>> /\ returned' = {} /\ activeCb' = {} /\ stopping' = -1 /\ diverged' = FALSE
 Send == /\ E.ev = "send"
         /\ LET r  == Feed(x, E.bytes)
                \* deviation of the implementation, visible only with filt = FALSE: the completed message shares its frame object
@@ -163,10 +163,15 @@ CmdRet == /\ E.ev = "cmd_ret"
              ELSE IF E.k \notin DOMAIN expectRet
                   THEN (IF \/ (E.kind = "notexist" /\ E.k \notin DOMAIN written)
                            \/ (E.kind = "busy" /\ E.k \notin DOMAIN written)          \* the terminal's command queue was full
-                           \/ (E.kind = "closed" /\ stopping)                         \* failed by the stopping writer
+                           \/ (E.kind = "closed" /\ stopping >= 0)                    \* failed by the stopping writer
                            \* the caller's own deadline (time-out + 1 s): the writer did not complete the request in time,
                            \* e.g. it is still queued behind a writer that is stuck writing to a terminal that stopped reading
-                           \/ (E.kind = "timeout" /\ E.ms >= issued[E.k].tmo + CallerGrace - 20 /\ E.ms <= issued[E.k].tmo + CallerGrace + 500)
+                           \* ... but not long after the writer stopped: the stopping writer answers what is outstanding or queued at once
+                           \/ (E.kind = "timeout" /\ E.ms >= issued[E.k].tmo + CallerGrace - 20 /\ E.ms <= issued[E.k].tmo + CallerGrace + 500
+                                /\ (stopping < 0 \/ E.tms - stopping <= 200)
+                                \* ... and for a request that was written only when the harness may have parked the writer (slack >= grace):
+                                \* an unhindered writer delivers the time-out itself, on time
+                                /\ (E.k \notin DOMAIN written \/ issued[E.k].slack >= CallerGrace))
                         THEN /\ returned' = returned \cup {E.k} /\ Ok
                              /\ UNCHANGED <<filt, rr, x, nmsg, hdr, toReport, toWriter, cur, pend, cbQ, wireQ, pser, issued, written, outstanding, matched, expectRet, activeCb, stopping>>
                         ELSE Fail("ReturnWithoutCompletion"))
@@ -177,7 +182,7 @@ CmdRet == /\ E.ev = "cmd_ret"
                   ELSE /\ returned' = returned \cup {E.k} /\ Ok
                        /\ UNCHANGED <<filt, rr, x, nmsg, hdr, toReport, toWriter, cur, pend, cbQ, wireQ, pser, issued, written, outstanding, matched, expectRet, activeCb, stopping>>
 \* the writer saw stopChan closed: from now on it answers outstanding and queued commands with an error
-WStop == /\ E.ev = "w_stop" /\ stopping' = TRUE /\ Ok
+WStop == /\ E.ev = "w_stop" /\ stopping' = E.tms /\ Ok       \* (stopping = -1: running; otherwise the recorder's time of the stop, ms)
          /\ UNCHANGED <<filt, rr, x, nmsg, hdr, toReport, toWriter, cur, pend, cbQ, wireQ, pser, issued, written, outstanding, matched, expectRet, returned, activeCb>>
 \* C09: the harness kept every *Message it was handed and compares it, after later traffic and after the
 \* connection closed, with the snapshot taken at delivery (body, raw frame, id, phone, serial, package numbers)
